@@ -574,6 +574,54 @@ def unestablished_path(graph, goals, preds, start=None, cut_node=None):
     return None
 
 
+def kept_between_calls(mod, func):
+    """Statements of ``func`` that store into a module-level container or
+    name (X[k] = v, del X[k], X.update / setdefault / add / append / pop ...,
+    ``global X`` followed by an assignment): state that survives the call."""
+    params = set(func.params())
+    local = set()
+    for sub in walk_no_nested(func.raw):
+        if isinstance(sub, ast.Assign):
+            for tgt in sub.targets:
+                for leaf in ast.walk(tgt):
+                    if isinstance(leaf, ast.Name) and isinstance(
+                            leaf.ctx, ast.Store):
+                        local.add(leaf.id)
+    globs = set()
+    for sub in walk_no_nested(func.raw):
+        if isinstance(sub, ast.Global):
+            globs |= set(sub.names)
+    local -= globs
+
+    def module_level(name):
+        return name in mod.consts and name not in params and \
+            name not in local
+    out = []
+    for sub in walk_no_nested(func.raw):
+        tgts = []
+        if isinstance(sub, ast.Assign):
+            tgts = sub.targets
+        elif isinstance(sub, ast.AugAssign):
+            tgts = [sub.target]
+        elif isinstance(sub, ast.Delete):
+            tgts = sub.targets
+        for tgt in tgts:
+            base = tgt
+            while isinstance(base, (ast.Subscript, ast.Attribute)):
+                base = base.value
+            if isinstance(base, ast.Name) and (
+                    (base is not tgt and module_level(base.id)) or
+                    base.id in globs):
+                out.append(sub)
+        if isinstance(sub, ast.Call) and is_meth(
+                sub, 'update', 'setdefault', 'add', 'append', 'extend',
+                'pop', 'clear', 'remove', 'insert', 'discard') and \
+                isinstance(recv(sub), ast.Name) and \
+                module_level(recv(sub).id):
+            out.append(sub)
+    return out
+
+
 _DOM_CACHE = {}
 
 
